@@ -31,6 +31,10 @@ ENTRY_EQUAL = {
 }
 
 
+# a delimiter a path inserts is where the offset that names it must point at the end of the path
+DELIMS = {":": "username_end", "@": "host_start", "?": "search_start", "#": "hash_start"}
+
+
 class Lin:
     __slots__ = ("t", "c")
 
@@ -91,6 +95,7 @@ class State:
         self.written = set()
         self.edits = 0
         self.appends = 0
+        self.marks = []          # [delimiter char, position Lin or None]: single-character delimiters this path inserted
         self.trace = []
 
     def copy(self):
@@ -104,6 +109,7 @@ class State:
         s.written = set(self.written)
         s.edits = self.edits
         s.appends = self.appends
+        s.marks = [list(m) for m in self.marks]
         s.trace = list(self.trace)
         return s
 
@@ -254,6 +260,20 @@ class Sim:
         st.edits += 1
         st.trace.append("insert %s bytes at %s (%s)" % (n, P, what))
         base = self.base_of(P, st)
+        for m in st.marks:
+            if m[1] is None:
+                continue
+            d = m[1] - P
+            dc = d.const()
+            if dc is not None:
+                if dc >= 0:
+                    m[1] = m[1] + n       # inserted in front of (or exactly at) the delimiter: it moves right
+            elif not any(t.split("@")[0] in POSITIONAL for t in d.t) and all(v > 0 for v in d.t.values()) and d.c >= 0:
+                m[1] = m[1] + n
+            elif not any(t.split("@")[0] in POSITIONAL for t in d.t) and all(v < 0 for v in d.t.values()) and d.c <= 0:
+                pass
+            else:
+                m[1] = None
         ties = []
         moves = []
         for i, o in enumerate(POSITIONAL):
@@ -280,6 +300,17 @@ class Sim:
         st.edits += 1
         st.trace.append("erase %s bytes at %s (%s)" % (n, P, what))
         E = P + n
+        for m in st.marks:
+            if m[1] is None:
+                continue
+            de = (m[1] - E).const()
+            dp = (m[1] - P).const()
+            if de is not None and de >= 0:
+                m[1] = m[1] - n
+            elif dp is not None and dp < 0:
+                pass
+            else:
+                m[1] = None                # erased, or not ordered against the erased range
         bp = self.base_of(P, st)
         be = self.base_of(E, st)
         plan = []
@@ -372,7 +403,14 @@ class Sim:
                         ln = self.ev(a[1], st)
                     else:
                         raise Abandon("insert form")
-                    return self.apply_insert(st, P, ln, what)
+                    outs = self.apply_insert(st, P, ln, what)
+                    lit = X.strip(a[1]) if len(a) == 2 else None
+                    while isinstance(lit, dict) and lit.get("k") == "construct" and len(lit.get("args", [])) == 1:
+                        lit = X.strip(lit["args"][0])
+                    if isinstance(lit, dict) and lit.get("k") == "lit" and lit.get("str") and lit.get("v") in DELIMS:
+                        for s2 in outs:
+                            s2.marks.append([lit["v"], P])
+                    return outs
                 if nm == "erase":
                     if len(a) != 2:
                         raise Abandon("erase to the end")
@@ -597,6 +635,10 @@ def check(ctx, fx, editors, rule="S6"):
             for st in sts:
                 bad = [(o, st.code[o], st.ref[o]) for o in POSITIONAL
                        if o in st.written and o not in st.omitted and st.code[o] != st.ref[o]]
+                for ch, pos in st.marks:
+                    o = DELIMS[ch]
+                    if pos is not None and o not in st.omitted and st.code[o] != pos:
+                        bad.append((o, st.code[o], pos))
                 cost = (len(bad), sum(len((g - w).t) for (o, g, w) in bad))
                 if best is None or cost < best[2]:
                     best = (bad, st, cost)
